@@ -628,6 +628,38 @@ def rule_assign(rep, d, methods):
             rep.holds("C16.shape", lab, "copy assignment re-seats pointer and count", where=d.where(fn), detail="%d path(s)" % len(paths))
 
 
+def rule_free(rep, d):
+    """the non-member first / last / subspan are the members of the same name applied to make_span(t), with the same arguments in the same order (`first(t, n)`
+    written as `subspan(0, n)` turns a count of -1 into dynamic_extent = 'everything that is left')"""
+    n = 0
+    for fn in ir.functions(d):
+        nm = fn.get("name")
+        if nm not in ("first", "last", "subspan") or ir.enclosing_class(d, fn) is not None or not ir.is_template_pattern(d, fn):
+            continue
+        ps = [p_.get("name") for p_ in ir.params(fn)]
+        rets = [x for x in ir.walk_expr(ir.body(fn)) if x.get("kind") == "ReturnStmt" and ir.ekids(x)]
+        lab = "%s(%s) [non-member]" % (nm, ", ".join(ir.qtype(p_) for p_ in ir.params(fn)))
+        n += 1
+        if len(rets) != 1 or not ps:
+            rep.inconclusive("C16.shape", lab, "forwards to the member of the same name", where=d.where(fn), detail="no single return")
+            continue
+        txt = re.sub(r"\s+", "", d.text(ir.ekids(rets[0])[0]))
+        m = re.match(r"^make_span\((\w+)\)\.(?:template)?(\w+)(<[^()]*>)?\((.*)\)$", txt)
+        if not m:
+            rep.inconclusive("C16.shape", lab, "forwards to the member of the same name", where=d.where(fn), detail="returns `%s`" % txt[:70])
+            continue
+        obj, member, targs, args = m.group(1), m.group(2), m.group(3), m.group(4)
+        want_args = ",".join(ps[1:])
+        if obj != ps[0] or member != nm or args != want_args:
+            rep.violates("C16.shape", lab, "forwards to the member of the same name", where=d.where(fn),
+                         detail="returns `%s`, expected make_span(%s).%s(%s): the member's own contract (count <= size(), no dynamic_extent for a count) is what the "
+                                "non-member promises" % (txt[:70], ps[0], nm, want_args))
+        else:
+            rep.holds("C16.shape", lab, "forwards to the member of the same name", where=d.where(fn), detail=txt[:70])
+    if n < 6:
+        rep.broke("C16.shape: only %d of the 6 non-member first/last/subspan overloads found" % n)
+
+
 def rule_types(rep):
     from ..witness import WitnessTU
     rep.rule("C16.types", "static sub-view types carry exactly the requested extent: first<N>/last<N> -> span<T,N>; subspan<O,C> -> "
@@ -660,6 +692,13 @@ def rule_types(rep):
                     ("std::is_constructible<span<wc::Base>, span<wc::Derived>>::value", "false"),
                     ("std::is_constructible<span<const int>, span<int>>::value", "true")):
         w.must_hold("%s == %s" % (e, want), "C16.types", "span(Container&)", "element type compatibility", e.replace("std::is_constructible", "constructible").replace("::value", ""))
+    # make_span views the whole object it is given: every element of an array (a char array's terminator included), with the element type as it is
+    for e, want in (("make_span(std::declval<int(&)[3]>())", "span<int, 3>"), ("make_span(std::declval<const int(&)[3]>())", "span<const int, 3>"),
+                    ("make_span(std::declval<const char(&)[4]>())", "span<const char, 4>"), ("make_span(std::declval<char(&)[4]>())", "span<char, 4>"),
+                    ("make_span(std::declval<const unsigned char(&)[2]>())", "span<const unsigned char, 2>"),
+                    ("make_span(std::declval<std::array<int, 3>&>())", "span<int, 3>"), ("make_span(std::declval<const std::array<int, 3>&>())", "span<const int, 3>"),
+                    ("make_span(std::declval<std::vector<int>&>())", "span<int, dyn>"), ("make_span(std::declval<const std::vector<int>&>())", "span<const int, dyn>")):
+        w.same("decltype(tcb::%s)" % e, want, "C16.types", "make_span", "views every element with its own type", e)
     w.run(rep, defines=["TCB_SPAN_THROW_ON_CONTRACT_VIOLATION"])
     # the bodies of the static sub-view members must instantiate for every count incl. 0, with both compilers (decltype above does not instantiate them)
     for comp in ("g++", "clang++"):
@@ -737,6 +776,7 @@ def run(tier):
         rule_at(rep, dn, fn, symmap, noexc=True)
     rule_shape(rep, d, methods, ctors, symmap)
     rule_assign(rep, d, methods)
+    rule_free(rep, d)
     rule_mode(rep)
     rule_types(rep)
     rep.unit("span<ElementType, Extent> pattern: %d methods, %d constructors" % (sum(len(v) for v in methods.values()), len(ctors)))
